@@ -18,6 +18,9 @@
     {"fn":"declRange","lower":i,"width":k}                            -> {"rng":[msb,lsb]|null,"new":[l,w],"stub":[l,w]}
     {"fn":"order","children":[[..]],"top":k|null,"all":[..]}          -> {"order":[..],"finished":b,"nodup":b}
   expressions: null (empty) | atom | {"cat":[atoms]};  atom: ["id",n] | ["bit",n,i] | ["part",n,l,r]
+  Reach of the theorems (evidence only, no verdict depends on it):
+    {"fn":"fragment04","net":wnet}   -> {"c04_text_struct":[in?,label],"c04_text_bb":[in?,label]}
+    {"fn":"fragment06","text":s}     -> {"elabDesign_frag":[in?,label],"elabDesign_bb":[in?,label]} | {"rejected":..}
 -/
 import Spydr.Common.Proto
 import Spydr.Verilog.Model
@@ -25,6 +28,7 @@ import Spydr.Verilog.Spec
 import Spydr.Verilog.ModelElab
 import Spydr.Verilog.ModelText
 import Spydr.Verilog.ModelParse
+import Spydr.Verilog.FragmentReport
 
 open Lean Spydr.Proto Spydr.Verilog
 
@@ -509,6 +513,18 @@ def handle (st : Unit) (j : Json) : Except String (Unit × Json) := do
     match Spydr.Verilog.Parse.readV t with
     | .ok s => pure (st, Json.mkObj [("ok", Json.bool true), ("view", viewOfSt s)])
     | .error e => pure (st, Json.mkObj [("ok", Json.bool false), ("raise", Json.str e)])
+  else if fn == "fragment04" then
+    let n ← wnetOfJson (← j.getObjVal? "net")
+    let pr (r : Bool × String) : Json := Json.arr #[Json.bool r.1, Json.str r.2]
+    pure (st, Json.mkObj [("c04_text_struct", pr (Spydr.Verilog.Elab.reportStruct n)),
+      ("c04_text_bb", pr (Spydr.Verilog.Elab.reportBB n))])
+  else if fn == "fragment06" then
+    let t ← getStr j "text"
+    let pr (r : Bool × String) : Json := Json.arr #[Json.bool r.1, Json.str r.2]
+    match Spydr.Verilog.Parse.parseV (Spydr.Verilog.Text.lexV t) with
+    | .ok ms => pure (st, Json.mkObj [("elabDesign_frag", pr (Spydr.Verilog.Elab.reportFragDesign ms)),
+        ("elabDesign_bb", pr (Spydr.Verilog.Elab.reportWriterShape ms))])
+    | .error e => pure (st, Json.mkObj [("rejected", Json.str e)])
   else if fn == "elab" then
     let ms ← (← getArr j "modules").toList.mapM moduleOfJson
     match Spydr.Verilog.Elab.elabDesign ms with
